@@ -336,6 +336,32 @@ def build(ctx):
     obs.append(Obligation("pvt.rows", "build_pvt_gas: z-factor, Density, viscosity, compressibility at row j == the stand-alone correlations at (T, p_j, T_pc, p_pc[, gamma]) with the Sutton point of the supplied composition; temperature column == T", rows,
                           [BP, GAS + "pseudocritical_point_Sutton", GAS + "make_nonhydrocarbon_properties"] + [c[1] for c in COLS], "CAS", rows_replay))
 
+    def pvt_pure():
+        for dry in ("dry gas", "wet gas"):
+            outs = run_pvt(dry)
+            gw = sorted({w_ for o in outs for w_ in o.heap["ghost"].get("global_writes", [])})
+            if gw:
+                return be.Verdict(be.REFUTED, "FRAME", witness={}, detail=f"build_pvt_gas writes module-level state {gw}: a later call can return something else than the table of its arguments (a remembered object that a caller has modified in the meantime, or the table of other arguments)")
+        return be.Verdict(be.PROVED, "FRAME", detail="no store into objects that outlive the call (module-level containers start empty, so nothing remembered can be returned either)")
+
+    def pvt_pure_replay(w):
+        import numpy as np
+        f = real(BP)
+        gv = {"N2": 0.01, "H2S": 0.0, "CO2": 0.02, "Gas Specific Gravity": 0.7, "Reservoir Temperature (deg F)": 200.0}
+        a = f(dict(gv), "wet gas", 600.0)
+        keep = {c_: np.array(a[c_], dtype=float) for c_ in a.columns}
+        a["pseudopressure"] = a["pseudopressure"] / float(np.asarray(a["pseudopressure"])[-1])   # what a notebook does with its own table
+        a["z-factor"] = 1.0
+        f(dict(gv, **{"Gas Specific Gravity": 0.8}), "wet gas", 600.0)
+        b = f(dict(gv), "wet gas", 600.0)
+        for c_ in keep:
+            if b is a or not np.allclose(np.asarray(b[c_], dtype=float), keep[c_], rtol=1e-12, atol=0):
+                return {"reproduced": True, "input": {"sequence": "t = build_pvt_gas(g, 'wet gas', 600); t['pseudopressure'] /= t['pseudopressure'].iloc[-1]; t['z-factor'] = 1; build_pvt_gas(other gas); build_pvt_gas(g, 'wet gas', 600)", "gas": gv},
+                        "observed": {"same object as the first table": bool(b is a), "column": c_, "last value": float(np.asarray(b[c_], dtype=float)[-1])}, "required": {"last value": float(keep[c_][-1]), "a table computed from the arguments": True}}
+        return {"reproduced": False}
+
+    obs.append(Obligation("pvt.pure", "build_pvt_gas writes no state that outlives the call and returns a freshly allocated table: the result is a function of the arguments, whatever was built or modified before", pvt_pure, [BP], "FRAME", pvt_pure_replay))
+
     # ---------------- Sutton
     PS = GAS + "pseudocritical_point_Sutton"
     HC = {"dry gas": ((tm.rconst("120.1"), tm.rconst(429), tm.rconst("-62.9")), (tm.rconst("671.1"), tm.rconst(-14), tm.rconst("-34.3"))),
